@@ -930,6 +930,14 @@ fn corruptions(rng: &mut Rng, b: &Base, g: &Scn) -> Vec<(&'static str, Scn)> {
     s.new_coin.ph = other;
     s.new_coin.parent = s.new_parent.id();
     add("all-coins-other-puzzle-hash", s);
+    // a coherent rebase target that belongs to ANOTHER puzzle: new_parent and new_coin agree with
+    // each other (and new_coin really is new_parent's child) but not with the spend's puzzle hash
+    let mut s = g.clone();
+    let other = rng.bytes32();
+    s.new_parent.ph = other;
+    s.new_coin.ph = other;
+    s.new_coin.parent = s.new_parent.id();
+    add("rebase-target-other-puzzle-hash", s);
     let mut s = g.clone();
     s.new_coin.parent = if rng.bool() { flip_bit(rng, &g.new_coin.parent) } else { g.new_parent.parent };
     add("new-coin-parent", s);
